@@ -6,18 +6,22 @@ import (
 	"encoding/hex"
 	"fmt"
 	"math"
+	"math/rand/v2"
 	"os"
 	"os/exec"
 	"path/filepath"
+	"sort"
 	"strings"
 	"sync"
 
 	"github.com/google/go-cmp/cmp"
 	"github.com/google/go-cmp/cmp/cmpopts"
+	"golang.org/x/exp/maps"
 	"golang.org/x/text/language"
 	"seehuhn.de/go/postscript/funit"
 	"seehuhn.de/go/sfnt"
 	"seehuhn.de/go/sfnt/cff"
+	"seehuhn.de/go/sfnt/cmap"
 	"seehuhn.de/go/sfnt/glyf"
 	"seehuhn.de/go/sfnt/glyph"
 	"seehuhn.de/go/sfnt/head"
@@ -33,7 +37,7 @@ import (
 
 func init() {
 	mon.RegisterCfg("C01", mon.Config{
-		Rule: "stratum constructed: generated fonts (TrueType simple/composite, simple CFF, CID-keyed CFF x glyph-count class x cmap class x layout class x header-field class) are written twice (byte-identical?), read back and compared with the normal form N(F) of the property, then taken once more round the cycle (fixed point, byte-identical second write); a sample is also written in a second OS process (fresh map seeds). stratum bytes: corpus files, library-written files and accepted mutants b: G=Read(b), Read(Write(G))==G, Write(Read(Write(G)))==Write(G). distinct = distinct written files (hash); stratum rich-layout: whole fonts whose GSUB/GPOS/GDEF come from gen/otl (every lookup type and format the encoders support) through the same sequence; stratum concurrent-read: 8 files read and re-written alone and concurrently, digests must agree",
+		Rule: "stratum constructed: generated fonts (TrueType simple/composite, simple CFF, CID-keyed CFF x glyph-count class x cmap class x layout class x header-field class) are written twice (byte-identical?), read back and compared with the normal form N(F) of the property, then taken once more round the cycle (fixed point, byte-identical second write); a sample is also written in a second OS process (fresh map seeds). stratum bytes: corpus files, library-written files and accepted mutants b: G=Read(b), Read(Write(G))==G, Write(Read(Write(G)))==Write(G). distinct = distinct written files (hash); stratum rich-layout: whole fonts whose GSUB/GPOS/GDEF come from gen/otl (every lookup type and format the encoders support) through the same sequence; stratum rewrite-after-edit: two equal fonts, one written and queried before, get the same in-place edits (names, metrics, timestamps, widths, outlines, a cmap subtable, a lookup) and must be written as the same bytes; stratum concurrent-read: 8 files read and re-written alone and concurrently, digests must agree",
 		Assumptions: []string{
 			"at least one timestamp is set (otherwise the name table embeds today's date - excluded by the property)",
 			"OS/2 selection flags only in combinations the OS/2 specification allows",
@@ -634,6 +638,161 @@ func runC01(c *mon.Ctx) {
 		desc := fmt.Sprintf("kind=%s glyphs=%d copyright=%d bytes", info.Kind, info.NGlyphs, l)
 		c01roundTrip(c, k, "cff-offset-sweep", f, info, desc, childOut)
 	})
+	// what is written is a function of the font value at the time of the
+	// call: two equal fonts, one of which was written and queried before,
+	// receive the same in-place edits and must then be written as the same
+	// bytes
+	c.Stratum("rewrite-after-edit", c.N(240, 8000), func(k *mon.Case) {
+		r := k.Rng
+		a, b := r.Uint64(), r.Uint64()
+		o := fontgen.Opts{Kind: []string{"glyf", "cff", "cid"}[k.Index%3], MinGlyphs: 2, MaxGlyphs: 40}
+		if k.Index/3%2 == 0 {
+			o.Layout = "subset"
+		}
+		mk := func() *sfnt.Font {
+			f, _ := fontgen.Font(rand.New(rand.NewPCG(a, b)), o)
+			if f.CreationTime.IsZero() && f.ModificationTime.IsZero() {
+				f.ModificationTime = f.ModificationTime.AddDate(2001, 0, 0)
+			}
+			return f
+		}
+		used, fresh := mk(), mk()
+		before, ok := writeFont(k, used, "Write(F)")
+		if !ok {
+			return
+		}
+		if k.Guard("queries", func() {
+			used.Widths()
+			used.GlyphBBoxes()
+			used.FontBBox()
+			used.IsFixedPitch()
+			used.PostScriptName()
+			if used.CMapTable != nil {
+				used.CMapTable.GetBest()
+			}
+			for i := 0; i < used.NumGlyphs(); i++ {
+				used.GlyphName(glyph.ID(i))
+				used.GlyphWidth(glyph.ID(i))
+			}
+		}) {
+			return
+		}
+		ea, eb := r.Uint64(), r.Uint64()
+		var edits []string
+		edit := func(f *sfnt.Font) {
+			er := rand.New(rand.NewPCG(ea, eb))
+			edits = edits[:0]
+			n := f.NumGlyphs()
+			for rep := 0; rep < 1+er.IntN(4); rep++ {
+				g := er.IntN(n)
+				switch er.IntN(9) {
+				case 0:
+					f.FamilyName += "X"
+					edits = append(edits, "family name")
+				case 1:
+					f.Ascent += 7
+					f.UnderlinePosition -= 3
+					edits = append(edits, "ascent, underline")
+				case 2:
+					f.CreationTime = f.CreationTime.AddDate(0, 0, 1)
+					f.ModificationTime = f.ModificationTime.AddDate(0, 1, 0)
+					edits = append(edits, "timestamps")
+				case 3, 4: // a width
+					switch ol := f.Outlines.(type) {
+					case *glyf.Outlines:
+						if g < len(ol.Widths) {
+							ol.Widths[g] += 13
+						}
+					case *cff.Outlines:
+						ol.Glyphs[g].Width += 13
+					}
+					edits = append(edits, fmt.Sprintf("width of glyph %d", g))
+				case 5, 6: // an outline, in place
+					switch ol := f.Outlines.(type) {
+					case *glyf.Outlines:
+						if ol.Glyphs[g] != nil {
+							ol.Glyphs[g].LLx -= 5
+							ol.Glyphs[g].URy += 5
+						}
+						h := er.IntN(n)
+						ol.Glyphs[g], ol.Glyphs[h] = ol.Glyphs[h], ol.Glyphs[g]
+						edits = append(edits, fmt.Sprintf("box of glyph %d, glyphs %d and %d exchanged", g, g, h))
+					case *cff.Outlines:
+						for _, cmd := range ol.Glyphs[g].Cmds {
+							if cmd.Op == cff.OpMoveTo || cmd.Op == cff.OpLineTo || cmd.Op == cff.OpCurveTo {
+								for j := 0; j+1 < len(cmd.Args); j += 2 {
+									cmd.Args[j], cmd.Args[j+1] = cmd.Args[j+1], cmd.Args[j]
+								}
+							}
+						}
+						edits = append(edits, fmt.Sprintf("outline of glyph %d mirrored in place", g))
+					}
+				case 7: // the character map
+					if f.CMapTable != nil {
+						keys := maps.Keys(f.CMapTable)
+						sort.Slice(keys, func(i, j int) bool {
+							if keys[i].PlatformID != keys[j].PlatformID {
+								return keys[i].PlatformID < keys[j].PlatformID
+							}
+							if keys[i].EncodingID != keys[j].EncodingID {
+								return keys[i].EncodingID < keys[j].EncodingID
+							}
+							return keys[i].Language < keys[j].Language
+						})
+						m := cmap.Format4{}
+						for c := 0; c < 1+er.IntN(20); c++ {
+							m[uint16(0x30+er.IntN(0x60))] = glyph.ID(er.IntN(n))
+						}
+						f.CMapTable[keys[er.IntN(len(keys))]] = m.Encode(0)
+						edits = append(edits, "one cmap subtable replaced")
+					}
+				case 8: // a lookup, in place
+					if f.Gsub != nil && len(f.Gsub.LookupList) > 0 {
+						l := f.Gsub.LookupList[er.IntN(len(f.Gsub.LookupList))]
+						l.Meta.LookupFlags ^= gtab.IgnoreMarks
+						if len(l.Subtables) > 1 {
+							l.Subtables[0], l.Subtables[1] = l.Subtables[1], l.Subtables[0]
+						}
+						edits = append(edits, "flags and subtable order of a GSUB lookup")
+					}
+				}
+			}
+		}
+		var outU, outF []byte
+		var errU, errF error
+		wr := func(f *sfnt.Font) ([]byte, error) {
+			buf := &bytes.Buffer{}
+			_, err := f.Write(buf)
+			return buf.Bytes(), err
+		}
+		if k.Guard("edit+Write", func() {
+			edit(used)
+			outU, errU = wr(used)
+			edit(fresh)
+			outF, errF = wr(fresh)
+		}) {
+			return
+		}
+		k.Eval()
+		desc := fmt.Sprintf("kind=%s layout=%q edits=%v", o.Kind, o.Layout, edits)
+		switch {
+		case (errU == nil) != (errF == nil):
+			k.Fail("mismatch", "history:write-after-edit-error-differs", "the font that was written before: %v; the equal font that was not: %v (%s)", errU, errF, desc)
+		case errU != nil:
+			k.Class("rewrite:both-refused")
+		case !bytes.Equal(outU, outF):
+			at := firstDiff(outU, outF)
+			k.Fail("mismatch", "history:write-after-edit-differs", "two equal fonts got the same edits; the one that was written (%d bytes) and queried before is now written differently from the other: %d vs %d bytes, first difference at byte %d (%s)", len(before), len(outU), len(outF), at, desc)
+		default:
+			k.Class("rewrite:equal")
+			if !bytes.Equal(before, outU) {
+				k.Class("rewrite:edit-changed-the-bytes")
+			}
+			k.DistinctBytes(outU)
+		}
+	})
+	c.Require("rewrite:equal", "rewrite:edit-changed-the-bytes")
+
 	c.Stratum("rich-layout", c.N(150, 4000), func(k *mon.Case) {
 		// whole fonts whose GSUB/GPOS/GDEF tables use every lookup type and
 		// format the encoders support (contextual and chaining rules, mark
